@@ -455,6 +455,13 @@ class IMAPClientCommand:
         #
         self.completed = False
 
+        # If the mbox management task could not prepare this command for
+        # execution (for example its message set is not valid for the
+        # mailbox) it records the exception here before setting `ready` so
+        # that it is raised in the task executing the command.
+        #
+        self.error: Exception | None = None
+
     ##################################################################
     #
     @asynccontextmanager
@@ -466,6 +473,8 @@ class IMAPClientCommand:
         try:
             mbox.task_queue.put_nowait(self)
             await self.ready.wait()
+            if self.error is not None:
+                raise self.error
             if mbox.deleted:
                 from .mbox import NoSuchMailbox
 
